@@ -199,6 +199,31 @@ def run_boundaries(ctx):
                      sample={'cf': cf, 'M': M, 'L': L, 'data_fragments': nd})
 
 
+def run_block_boundaries(ctx):
+    """File sources are read in pieces; implementations like to buffer in power-of-two blocks.  Fragment sizes that
+    divide 64 KiB / 1 MiB with data sets ending at, just before and just after those block boundaries; and fragment
+    sizes above 1 MiB that are not a multiple of it."""
+    cases = []
+    for M in (10, 70, 262, 1030, 4102, 16390):
+        f = M - 6
+        for L in (65535, 65536, 65537, 65536 + f, 2 * 65536 + 1):
+            cases.append((M, L))
+    cases += [(1048582, 1048576), (1048582, 1048577), (1048582, 2 * 1048576 + 5), (1572870, 3 * 1048576 + 11),
+              (1572870, 1572864), (2097158 + 7, 4 * 1048576 + 3), (262150, 1048576), (262150, 1048577)]
+    for i, (M, L) in enumerate(cases):
+        if M == 10 and L > 70000:
+            continue
+        cf = (0x0001, 0x8020, 0x8010)[i % 3]
+        spec = {'cf': cf, 'fields': default_fields(cf, i % 5), 'data': dg.patterned(L, i)}
+        try:
+            nd = check_case(spec, M, 1 + 2 * (i % 100), sources=('bytes', 'file', 'bytesio', 'offset'), vias=('encode',))
+        except Violation as v:
+            ctx.fail(v.key, v.what, v.case)
+            nd = 0
+        ctx.case(('block', M, L), True, labels=['block-boundary', 'M>1MiB' if M > 1048576 else 'M<=1MiB'],
+                 sample={'cf': cf, 'M': M, 'L': L, 'data_fragments': nd})
+
+
 def run_all_classes(ctx):
     for cf in dg.ALL_CF:
         for M, L in ((7, 3), (16, 20), (16, 0), (100, 95), (38, 64)):
@@ -290,7 +315,7 @@ def run(ctx):
         raise HarnessError('reference self-test: %s' % exc)
     ctx.rule = ('grid: every maximum PDU length M in the range x every data length within +-2 of k*(M-6), '
                 'k=0..4, plus 1 (message class and context id rotated), each through bytes / BytesIO / real '
-                'file / real file positioned behind a header / gzip file object and through DIMSEMessage.encode and Association.send; 2^k boundaries up to 2^32-1; all '
+                'file / real file positioned behind a header / gzip file object and through DIMSEMessage.encode and Association.send; 2^k boundaries up to 2^32-1; file sources with data sets ending around 64 KiB / 1 MiB block boundaries and fragment sizes above 1 MiB; all '
                 '23 classes; Hypothesis-random messages; several generators consumed alternately; non-trivial = >=2 data fragments or data length '
                 'within +-2 of a multiple of the fragment size; distinct by (part, class, M, L)')
     ctx.assumptions = ['several PDVs per PDU would be accepted', 'M < 7 outside the stated domain',
@@ -300,6 +325,7 @@ def run(ctx):
     parallel(ctx, run_grid, [{'m_lo': a, 'm_hi': b} for a, b in bands])
     run_all_classes(ctx)
     run_boundaries(ctx)
+    run_block_boundaries(ctx)
     run_interleaved(ctx)
     if ctx.thorough:
         parallel(ctx, shard_random, [{'n': 5000} for _ in range(16)])
